@@ -5,6 +5,9 @@ package redis
 import (
 	"fmt"
 	"strings"
+	"time"
+
+	"github.com/samaritan-proxy/samaritan/host"
 
 	"github.com/samaritan-proxy/samaritan/proc"
 	"github.com/samaritan-proxy/samaritan/verifrt/sched"
@@ -17,7 +20,8 @@ import (
 // C09 (S) redis processor stop: the real redisProc with its real listener on the virtual network.
 //
 // alphabet  backend responsive | silent | closes its connections ; session idle | request in flight |
-//           no session ; cold start with a silent seed (Stop during the initial slot refresh)   (INPUT)
+//           no session ; cold start with a silent seed (Stop during the initial slot refresh) ; an endpoint is
+//           removed while the periodic hot-key collection runs, then Stop   (INPUT)
 // bound     P, F, Sel (see Setup)
 // oracle    Stop returns; afterwards the port is closed, every downstream and upstream connection is closed
 //           and no goroutine of the processor is left
@@ -28,6 +32,14 @@ const c09redisAddr = "127.0.0.1:6400"
 func c09redisBody() {
 	backend := []string{"responsive", "silent", "closes"}[sched.Choose(sched.ClsInput, 3, "backend")]
 	state := []string{"idle-session", "request-in-flight", "no-session", "cold-start"}[sched.Choose(sched.ClsInput, 4, "state")]
+	c09redis(backend, state)
+}
+
+// the same processor; an endpoint is removed (its backend client is stopped, which takes several hand-overs
+// between the client's goroutines) while the periodic hot-key collection round runs, then Stop.
+func c09redisCollectBody() { c09redis("responsive", "host-removed-during-collect") }
+
+func c09redis(backend, state string) {
 	restore := proc.VerifSetListenFunc(vnet.Listen)
 	sched.OnReset(restore)
 	cl := cluster.New(2, 0, 2)
@@ -47,7 +59,7 @@ func c09redisBody() {
 		sched.WaitQuiescent()
 	}
 	k := cl.KeyInGroup("k", 0, 0)
-	if state == "idle-session" || state == "request-in-flight" {
+	if state == "idle-session" || state == "request-in-flight" || state == "host-removed-during-collect" {
 		var err error
 		c, err = vnet.DialConn(c09redisAddr)
 		if err != nil {
@@ -68,6 +80,30 @@ func c09redisBody() {
 		}
 		if state == "request-in-flight" {
 			c.Write(resp.Encode(resp.Cmd("GET", k)))
+		}
+	}
+	if state == "host-removed-during-collect" {
+		// an endpoint leaves the service (its backend client is stopped) while the periodic hot-key
+		// collection round is running
+		removed := false
+		cli := p.u.loadClients()[cl.Nodes[0].Addr]
+		sched.GoNamed("endpoint-remover", func() { p.OnSvcHostRemove([]*host.Host{host.New(cl.Nodes[0].Addr)}); removed = true })
+		if cli != nil {
+			// the collection tick arrives when the backend client's goroutines have ended, i.e. right before the
+			// client releases its hot-key counter (the narrow driver: no delay budget is spent on getting there)
+			sched.Wait("backend-client-ended", cli, func() bool {
+				select {
+				case <-cli.done:
+					return true
+				default:
+					return false
+				}
+			})
+		}
+		sched.AdvanceTime(int64(11 * time.Second))
+		sched.WaitQuiescent()
+		if !removed {
+			sched.Fail("host-removal-never-returns / redis", "OnSvcHostRemove called while the hot-key collector runs did not return")
 		}
 	}
 	stopped := false
@@ -100,6 +136,13 @@ func c09redisBody() {
 }
 
 func init() {
+	sched.Register(&sched.Scenario{Name: "C09/redis-collect", Setup: func(tier string) (sched.Config, func()) {
+		b := sched.Bounds{P: 1, F: 1, Sel: 1}
+		if tier == "thorough" {
+			b = sched.Bounds{P: 2, F: 2, Sel: 1}
+		}
+		return sched.Config{Bounds: b, Iterative: true, MaxSteps: 100000}, c09redisCollectBody
+	}})
 	sched.Register(&sched.Scenario{Name: "C09/redis-stop", Setup: func(tier string) (sched.Config, func()) {
 		b := sched.Bounds{P: 1, F: 1, Sel: 1}
 		if tier == "thorough" {
